@@ -500,6 +500,99 @@ mod ffj {
 }
 '''
 
+SEED_ATTRIMPL = '''\
+#[diplomat::bridge]
+mod ffi {
+    #[diplomat::opaque]
+    pub struct Alpha(u8);
+
+    #[diplomat::opaque]
+    pub struct Beta(u8);
+
+    pub struct Gamma {
+        pub g: u8,
+    }
+
+    pub enum Delta {
+        One,
+        Two,
+    }
+
+    #[diplomat::abi_rename = "legacy_{0}"]
+    impl Alpha {
+        pub fn value(&self) -> u8 {
+            self.0
+        }
+    }
+
+    impl Beta {
+        pub fn value(&self) -> u8 {
+            self.0
+        }
+        pub fn alpha(&self) -> Box<Alpha> {
+            unimplemented!()
+        }
+    }
+
+    #[diplomat::attr(cpp, disable)]
+    #[diplomat::attr(js, disable)]
+    #[diplomat::attr(kotlin, disable)]
+    impl Gamma {
+        pub fn hidden(self) -> u8 {
+            self.g
+        }
+    }
+
+    impl Delta {
+        pub fn other(self) -> Delta {
+            self
+        }
+    }
+
+    #[diplomat::attr(dart, rename = "d_{0}")]
+    #[diplomat::attr(nanobind, disable)]
+    #[diplomat::attr(c, disable)]
+    impl Alpha {
+        pub fn second(&self) -> Gamma {
+            unimplemented!()
+        }
+    }
+
+    impl Gamma {
+        pub fn shown(self) -> Delta {
+            Delta::One
+        }
+    }
+}
+
+#[diplomat::bridge]
+mod ffk {
+    #[diplomat::opaque]
+    pub struct Omega(u8);
+
+    #[diplomat::demo(external)]
+    impl Omega {
+        pub fn get(&self) -> u8 {
+            self.0
+        }
+    }
+
+    pub enum Psi {
+        Up,
+        Down,
+    }
+
+    impl Psi {
+        pub fn flip(self) -> Psi {
+            self
+        }
+        pub fn omega(self) -> Box<Omega> {
+            unimplemented!()
+        }
+    }
+}
+'''
+
 HAND_SEEDS = [
     ("basic", SEED_BASIC),
     ("two_modules", SEED_TWO_MODULES),
@@ -508,6 +601,7 @@ HAND_SEEDS = [
     ("results", SEED_RESULTS),
     ("strings", SEED_STRINGS),
     ("tiny", SEED_TINY),
+    ("attrimpl", SEED_ATTRIMPL),
 ]
 
 # ------------------------------------------------------------------------------------------------------------------
@@ -915,6 +1009,34 @@ def successors(st, opts):
                     new = inner[:at] + _new_type_items(kind, name) + inner[at:]
                     out.append((Edit("insert-type", "insert-type(%s: %s %s at %s)" % (lab, kind, name, pos), name, "rename" in b.sub[0]),
                                 _replace_bridge_items(st, fi, ii, new)))
+    # insert-shadow: a new, unreferenced type with the SAME Rust name as a type of another bridge module, kept apart in the
+    # output by a rename attribute (legal: bridge modules are separate Rust modules)
+    if not opts.get("no_shadow"):
+        for fi, ii, f, b in bridges(st):
+            if ins_files is not None and f.path not in ins_files:
+                continue
+            inner = list(b.sub[1])
+            text_b = render_item(b)
+            cand = None
+            for fj, ij, g, b2 in bridges(st):
+                if (fj, ij) == (fi, ii):
+                    continue
+                for x in b2.sub[1]:
+                    if x.kind == "type" and not re.search(r"\b%s\b" % re.escape(x.name), text_b) and "<" not in x.text.split("{")[0]:
+                        kind = "opaque" if "diplomat::opaque" in x.text else ("enum" if re.search(r"\benum\s+%s\b" % x.name, x.text) else "struct")
+                        cand = (x.name, kind)
+                        break
+                if cand:
+                    break
+            if not cand or any("C14Shadow" in t for t in render_state(st).values()):
+                continue
+            name, kind = cand
+            items = _new_type_items(kind, name)
+            attr = '\n    #[diplomat::attr(*, rename = "C14Shadow%s")]' % name
+            items[0] = Item("type", name, None, attr + "\n" + items[0].text.lstrip("\n"))
+            new = inner + items
+            out.append((Edit("insert-type", "insert-shadow(%s: %s %s renamed C14Shadow%s)" % (_label(f, b), kind, name, name),
+                             "C14Shadow" + name, True), _replace_bridge_items(st, fi, ii, new)))
     for fi, ii, name in ([] if opts.get("no_delete") else unreferenced_types(st)):
         f = st.files[fi]
         if ins_files is not None and f.path not in ins_files:
@@ -1379,19 +1501,19 @@ def make_seeds(wd, tier):
 FULL = {}
 REDUCED = {"insert_combos": (("opaque", "first"), ("struct", "middle"), ("enum", "last")),
            "nonbridge_kinds": ("same-name-struct", "plain-mod", "outer-impl")}
-PERMDEL = {"insert_combos": (), "nonbridge_kinds": ()}          # permutations and deletions only
+PERMDEL = {"insert_combos": (), "nonbridge_kinds": (), "no_shadow": True}          # permutations and deletions only
 FT_QUICK = {"perm_files": ("attrs.rs",), "insert_files": ("attrs.rs", "result.rs"),
             "insert_combos": (("opaque", "first"), ("struct", "last"), ("enum", "middle")),
             "nonbridge_files": ("lib.rs",), "nonbridge_kinds": ("same-name-struct", "plain-mod", "outer-impl", "fn")}
 FT_FULL = {"nonbridge_files": ("lib.rs", "structs.rs", "attrs.rs")}
 
 PLAN = {
-    "quick": [("tiny", [FULL, PERMDEL]), ("basic", [FULL]), ("two_modules", [FULL]), ("cyclic", [FULL]),
+    "quick": [("tiny", [FULL, PERMDEL]), ("attrimpl", [FULL]), ("basic", [FULL]), ("two_modules", [FULL]), ("cyclic", [FULL]),
               ("interleaved", [FULL]), ("results", [FULL]), ("strings", [FULL]), ("feature_tests", [FT_QUICK])],
     # cheapest / broadest first: if the wall cap cuts the run short, the largest hand seed and the depth-3 seed are what is missing
     "thorough": [("feature_tests", [FT_FULL]), ("basic", [FULL, REDUCED]), ("two_modules", [FULL, REDUCED]),
                  ("cyclic", [FULL, REDUCED]), ("results", [FULL, REDUCED]), ("strings", [FULL, REDUCED]),
-                 ("tiny", [FULL, REDUCED, PERMDEL]), ("interleaved", [FULL, REDUCED])],
+                 ("attrimpl", [FULL, REDUCED]), ("tiny", [FULL, REDUCED, PERMDEL]), ("interleaved", [FULL, REDUCED])],
 }
 WALL_CAP = {"quick": 85, "thorough": 540}
 
